@@ -341,8 +341,37 @@ func (c *C05) AfterTx(w *World, t *TxCtx) {
 				continue
 			}
 			ct := pre.CreditType(bk.CreditTypeAbbrev)
-			amt, ok := new(big.Int).SetString(msg.Amount, 10)
-			if ct == nil || !ok {
+			if ct == nil {
+				continue
+			}
+			// The amount is "an integer in a string". A plain run of decimal digits
+			// has one reading. Other accepted spellings (leading zero, sign, base
+			// prefix) may be read in base 10 or by Go's base-prefix rules; whichever
+			// the chain picks, it must burn and release by that one reading.
+			var amt *big.Int
+			a10, ok10 := new(big.Int).SetString(msg.Amount, 10)
+			a0, ok0 := new(big.Int).SetString(msg.Amount, 0)
+			switch {
+			case ok10 && a10.String() == msg.Amount:
+				amt = a10
+			case ok10 || ok0:
+				w.Probe("take_amount_noncanonical_accepted")
+				if !single {
+					// burn not attributable to one message; R1 judges the state
+					c.takes[bk.Id] = true
+					continue
+				}
+				burned := new(big.Int).Sub(pre.SupplyOf(bk.BasketDenom), post.SupplyOf(bk.BasketDenom))
+				switch {
+				case ok10 && burned.Cmp(a10) == 0:
+					amt = a10
+				case ok0 && burned.Cmp(a0) == 0:
+					amt = a0
+				default:
+					w.Violate("R3", "take-burned-wrong-amount", "Take of %q tokens from %s burned %s, which is no reading of that amount", msg.Amount, msg.BasketDenom, burned)
+					return
+				}
+			default:
 				continue
 			}
 			c.takes[bk.Id] = true
